@@ -55,12 +55,13 @@ func c05Body(t *rapid.T) {
 	var aheadMsg string
 	warm := map[string]uint64{} // per pchannel: rows up to this index are not counted (streams were not yet flowing)
 	nCheckpointWrites := 0
+	var armed atomic.Bool // the monitor judges only once the streams are flowing and the warm-up rows are excluded
 	monitor := func(op *storeOp) {
 		if op.Kind != "pos.put" {
 			return
 		}
 		pos, ok := op.Obj.(*meta.TaskCollectionPosition)
-		if !ok || colls[pos.CollectionID] == nil {
+		if !ok || colls[pos.CollectionID] == nil || !armed.Load() {
 			return
 		}
 		acc := acceptedRows(tgt)
@@ -135,6 +136,7 @@ func c05Body(t *rapid.T) {
 		warm[pc] = uint64(w.broker.Len(pc))
 	}
 	monMu.Unlock()
+	armed.Store(true)
 
 	// ---- the script
 	var counted []int64
